@@ -243,6 +243,18 @@ func runC11(cfg *config, res *monitor.Result) {
 					if other != nil && csproto.Equal(gen, other) != ops.equal(gen, other) {
 						viol("Equal", "differs-from-runtime", "csproto.Equal disagrees with the runtime's Equal", d)
 					}
+					if t.pkg.Flavour == "gv2" {
+						// same descriptor, another Go type: protobuf-go's Equal compares by descriptor and content
+						if pm, ok := gen.(proto.Message); ok {
+							dyn := dynamicpb.NewMessage(pm.ProtoReflect().Descriptor())
+							if err := (proto.UnmarshalOptions{AllowPartial: true, Resolver: t.pkg.Resolver()}).Unmarshal(b1, dyn); err == nil {
+								evals += 2
+								if csproto.Equal(gen, dyn) != proto.Equal(pm, dyn) || csproto.Equal(dyn, gen) != proto.Equal(dyn, pm) {
+									viol("Equal", "differs-from-runtime:dynamic-message-of-same-descriptor", fmt.Sprintf("csproto.Equal(%T, *dynamicpb.Message of the same descriptor and content) disagrees with proto.Equal (%v)", gen, proto.Equal(pm, dyn)), d)
+								}
+							}
+						}
+					}
 					csproto.Reset(cl)
 					if dd, err := t.pkg.ToDynamic(cl); err != nil || !bridge.Equal(dd, dynamicpb.NewMessage(t.md)) {
 						viol("Reset", "not-empty", "message not empty after csproto.Reset", d)
